@@ -399,6 +399,10 @@ class Parser:
                     raise JSONPathSyntaxError(
                         "leading zero in index selector", token=stream.current
                     )
+                if "e" in stream.current.value.lower():
+                    raise JSONPathSyntaxError(
+                        "exponent in index selector", token=stream.current
+                    )
                 list_items.append(
                     IndexSelector(
                         env=self.env,
